@@ -90,6 +90,31 @@ Theorem C18_ledger_token_ledger : forall n d, 0 <= d <= 18 -> Z.abs n < 2 ^ 450 
 Proof. exact ledger_token_ledger. Qed.
 Print Assumptions C18_ledger_token_ledger.
 
+(* The property's quantifier, literally: every EVM word, every token decimal count 0..18. *)
+Theorem C18_rescale_evm_word : forall n d, 0 <= n < 2 ^ 256 -> 0 <= d <= 18 ->
+  format_erc20 n d = Ok (n / 10 ^ (18 - d)) /\ format_rocket n d = Ok (n * 10 ^ (18 - d)).
+Proof. exact rescale_evm_word. Qed.
+Print Assumptions C18_rescale_evm_word.
+
+(* A plain digit string (e.g. the STAKE opcode's strconv.FormatUint(stake)) denotes value * 10^18. *)
+Theorem C18_parse_uint_string : forall ip, Forall digit ip -> ip <> [] -> (length ip <= 78)%nat ->
+  str_to_bigint ip = Ok (horner ip * 10 ^ 18).
+Proof. exact parse_uint_string. Qed.
+Print Assumptions C18_parse_uint_string.
+
+(* The precision as a parameter: with away-from-zero rounding every EVM word round-trips at every
+   precision from 258 bits upward, and 257 bits are not enough -- the code's 512 leave a 254-bit margin. *)
+Theorem C18_min_precision :
+  (forall prec n, 258 <= prec -> - 2 ^ 256 < n < 2 ^ 256 ->
+     str_to_bigint_gen AwayFromZero prec (bigint_to_str n) 18 = Ok n) /\
+  (exists n, 0 <= n < 2 ^ 256 /\ str_to_bigint_gen AwayFromZero 257 (bigint_to_str n) 18 <> Ok n).
+Proof.
+  split; [exact roundtrip_evm_word_any_prec|].
+  exists 115792089237316195423570985008687907853269984665640564039457584004966757132588.
+  split; [split; [lia | reflexivity]|]. vm_compute. discriminate.
+Qed.
+Print Assumptions C18_min_precision.
+
 (* The error bound of one rounding that everything rests on: the away-from-zero rounding of n/d at
    precision p lies in [n/d, n/d * (1 + 2^(1-p))]. *)
 Theorem C18_round_away_bounds : forall prec neg n d, 0 < n -> 0 < d -> 1 <= prec ->
